@@ -123,6 +123,7 @@ func verifAssume(bool) {}
 //@ ensures #lenS: kindis(datum, "string") ==> len(result0) == len(buffer) + len(asstr(datum))
 //@ ensures #lenB: kindis(datum, "bytes") ==> len(result0) == len(buffer) + len(asbytes(datum))
 //@ ensures #prefix: forallint(a, pattern(mem(result0)[a]), (base(result0) <= a && a < base(result0)+len(buffer)) ==> mem(result0)[a] == old(mem(buffer))[a - base(result0) + base(buffer)])
+//@ ensures #prefixIdx: forall(i, 0, len(buffer), result0[i] == old(buffer[i]))
 //@ ensures #v8: kindis(datum, "int8") ==> sle8(result0, len(buffer)) == asint(datum)
 //@ ensures #vu8: kindis(datum, "uint8") ==> result0[len(buffer)] == asint(datum)
 //@ ensures #v16: kindis(datum, "int16") ==> sle16(result0, len(buffer)) == asint(datum)
